@@ -225,6 +225,33 @@ def vsame(a, b):
     return vdigest(a) == vdigest(b)
 
 
+def rdigest(v, _depth=0):
+    """Digest of what the constructors of the objects in v were *handed*
+    for parameters they convert (classes with _yatiml_defaults whose
+    constructor turns None into the override): [] where nothing is
+    recorded."""
+    if _depth > 60:
+        return []
+    out = []
+    rec = getattr(v, '_v_received', None)
+    if rec is not None and not isinstance(v, type):
+        out.append([type(v).__name__,
+                    [[k, plain.digest(x) if isinstance(
+                        x, (str, int, float, bool, type(None))) else 'obj']
+                     for k, x in rec.items()]])
+    args = getattr(v, '_v_args', None)
+    if args is not None and not isinstance(v, type):
+        for x in args.values():
+            out.extend(rdigest(x, _depth + 1))
+    elif isinstance(v, dict):
+        for x in v.values():
+            out.extend(rdigest(x, _depth + 1))
+    elif isinstance(v, (list, tuple)):
+        for x in v:
+            out.extend(rdigest(x, _depth + 1))
+    return out
+
+
 def has_instance(v, _depth=0):
     """Does the value contain a class instance or container?"""
     if getattr(v, '_v_args', None) is not None or isinstance(v, enum.Enum):
